@@ -158,26 +158,10 @@ def strategy(max_side):
     def c(draw):
         h = draw(st.one_of(st.integers(1, max_side), st.integers(2, max_side), st.integers(3, max_side)))
         w = draw(st.one_of(st.integers(1, max_side), st.integers(2, max_side), st.integers(3, max_side)))
-        rid = [[-1] * w for _ in range(h)]
-        n = 0
-        p_new = draw(st.sampled_from([1, 1, 2, 4]))
-        for y in range(h):
-            for x in range(w):
-                opts = []
-                if x > 0:
-                    opts.append(rid[y][x - 1])
-                if y > 0:
-                    opts.append(rid[y - 1][x])
-                c_ = draw(st.integers(0, p_new + len(opts) - 1)) if opts else 0
-                if not opts or c_ == len(opts):
-                    rid[y][x] = n
-                    n += 1
-                else:
-                    rid[y][x] = opts[min(c_, len(opts) - 1)]
-        target = [[] for _ in range(n)]
-        for y in range(h):
-            for x in range(w):
-                target[rid[y][x]].append([y, x])
+        from puzzles.base import draw_rooms
+        rooms, _ = draw_rooms(draw, st, h, w, (1, 1, 2, 4))
+        target = [[list(c) for c in r] for r in rooms]
+        n = len(target)
         sizes = [len(b) for b in target]
 
         def opt(v_lo, v_hi):
